@@ -5,7 +5,7 @@
      parents_first, fds           : useParents = true,  stable = false
      stable                       : useParents = false, stable = true *)
 From TV Require Import Common.Prelude Model.IndexSets Model.RuleLocal Model.Selection Model.SelectionAll.
-From TV Require Import Proofs.IndexSetsProofs Proofs.SelectionProofs Proofs.SelectionAllProofs.
+From TV Require Import Proofs.IndexSetsProofs Proofs.SelectionProofs Proofs.RuleLocalProofs Proofs.SelectionAllProofs.
 Local Open Scope Z_scope.
 
 (* (a) non-stable strategies: the proposed set is EXACTLY
@@ -67,6 +67,19 @@ Theorem c07s_stable_parents_present : forall d r limits pts pmap useParents, wf 
                In p' pts \/ In p' (candidates r limits pts pmap useParents true).
 Proof. exact stable_parents_present. Qed.
 
+(* (d) for the four binary rules (localp, semi-localp, localp-zero, localp-boundary; point numbers are non-negative) the model's
+   fuel is never exhausted: a parent is at a strictly lower level, every pass lowers the largest total level of a point with a
+   missing parent by one.  So the guarantee is unconditional there; for the ternary order-0 rule (pwc) it stays conditional
+   and the runner evaluates lower_closed on every compared case. *)
+Theorem c07s_stable_fuel_sufficient : forall d r limits pts pmap useParents, binary_rule r -> wf d pts -> nonneg_set pts ->
+  lower_closed r pts (candidates r limits pts pmap useParents true) = true.
+Proof. exact stable_fuel_sufficient. Qed.
+
+Theorem c07s_stable_parents_present_binary : forall d r limits pts pmap useParents, binary_rule r -> wf d pts -> nonneg_set pts ->
+  forall p p', In p (candidates r limits pts pmap useParents true) -> parent_of r p p' ->
+               In p' pts \/ In p' (candidates r limits pts pmap useParents true).
+Proof. exact stable_parents_present_binary. Qed.
+
 (* hence: a parent-closed loaded set united with a stable proposal is parent-closed *)
 Theorem c07s_stable_keeps_closed : forall d r limits pts pmap useParents, wf d pts -> parent_closed r pts ->
   lower_closed r pts (candidates r limits pts pmap useParents true) = true ->
@@ -111,6 +124,8 @@ Print Assumptions c07s_stable_contains.
 Print Assumptions c07s_stable_sorted.
 Print Assumptions c07s_stable_adds_only_parents.
 Print Assumptions c07s_stable_parents_present.
+Print Assumptions c07s_stable_fuel_sufficient.
+Print Assumptions c07s_stable_parents_present_binary.
 Print Assumptions c07s_stable_keeps_closed.
 Print Assumptions c07s_stable_union_closed_refuted.
 Print Assumptions c07s_children_within_limits.
